@@ -18,6 +18,12 @@ func TestVerifDriver(t *testing.T) {
 	switch prop {
 	case "C07":
 		runC07(em, r)
+	case "C06":
+		runC06(em, r)
+	case "C10":
+		runC10(em, r)
+	case "C11":
+		runC11(em, r)
 	default:
 		t.Fatalf("unknown property %s", prop)
 	}
